@@ -14,12 +14,15 @@ import (
 
 	"github.com/elastos/Elastos.ELA/common"
 	"github.com/elastos/Elastos.ELA/common/config"
+	"github.com/elastos/Elastos.ELA/core/contract"
 	"github.com/elastos/Elastos.ELA/core/contract/program"
 	"github.com/elastos/Elastos.ELA/core/types"
 	ctypes "github.com/elastos/Elastos.ELA/core/types/common"
 	"github.com/elastos/Elastos.ELA/core/types/functions"
 	"github.com/elastos/Elastos.ELA/core/types/interfaces"
 	"github.com/elastos/Elastos.ELA/core/types/payload"
+	"github.com/elastos/Elastos.ELA/crypto"
+	"github.com/elastos/Elastos.ELA/dpos/state"
 	"pgregory.net/rapid"
 	"verifharness/lib/vk"
 	"verifharness/node"
@@ -154,6 +157,7 @@ type Machine struct {
 	Dead   bool
 	salt   uint64
 	genTS  uint32
+	Extra  map[string]any // rendered with the case (profile parameters ...)
 
 	// classification
 	SawReorg, SawInvalidReorg, SawOrphanResolved, SawEqualFork, SawDeepOrphan bool
@@ -178,7 +182,7 @@ func (m *Machine) Render() any {
 		}
 		rows = append(rows, row{ID: b.ID, Parent: p, Height: b.Height, Kind: b.Kind, NTx: b.NTx})
 	}
-	return map[string]any{"retarget": m.Cfg.Retarget, "premine": m.Cfg.Premine, "ops": m.Ops, "blocks": rows}
+	return map[string]any{"retarget": m.Cfg.Retarget, "premine": m.Cfg.Premine, "profile": m.Extra, "ops": m.Ops, "blocks": rows}
 }
 
 // ---------------------------------------------------------------------------
@@ -339,7 +343,8 @@ type BuildSpec struct {
 	Kind      string
 	NTx       int
 	TimeDelta uint32
-	Revert    bool
+	Revert    bool // include a RevertToPOW (NoBlock) transaction
+	ToDPOS    bool // include a RevertToDPOS transaction (only meaningful on the node's tip while it is in POW mode)
 }
 
 func (m *Machine) transfer(t *rapid.T, c node.Coin, height uint32, label string) (interfaces.Transaction, common.Fixed64) {
@@ -388,6 +393,13 @@ func (m *Machine) Build(t *rapid.T, spec BuildSpec) *Blk {
 				[]*ctypes.Attribute{}, []*ctypes.Input{}, []*ctypes.Output{}, 0, []*program.Program{})
 			txs = append(txs, tx)
 			revert = true
+		}
+		if spec.ToDPOS {
+			tx, err := m.revertToDPOSTx()
+			if err != nil {
+				t.Fatalf("harness: RevertToDPOS tx: %v", err)
+			}
+			txs = append(txs, tx)
 		}
 		coins := pu.Spendable(height, maturity)
 		for i := 0; i < spec.NTx && len(coins) > 0; i++ {
@@ -520,6 +532,42 @@ func (m *Machine) Build(t *rapid.T, spec BuildSpec) *Blk {
 	m.ByHash[b.Hash] = b
 	m.logf("build %v on %v h=%d kind=%s ntx=%d td=%d bits=%08x", b, parent, height, kind, len(txs), td, blk.Header.Bits)
 	return b
+}
+
+// revertToDPOSTx builds the transaction the arbiters publish to leave POW mode:
+// one program whose code is the m-of-n multi-signature script of the current
+// normal arbiters (m = 2/3+1).  TransactionChecker.ContextCheck stops after
+// RevertToDPOSTransaction.SpecialContextCheck, which inspects that script only.
+func (m *Machine) revertToDPOSTx() (interfaces.Transaction, error) {
+	var pks []*crypto.PublicKey
+	for _, a := range m.N.Arbiters.GetArbitrators() {
+		if !a.IsNormal {
+			continue
+		}
+		pk, err := crypto.DecodePoint(a.NodePublicKey)
+		if err != nil {
+			return nil, err
+		}
+		pks = append(pks, pk)
+	}
+	need := int(float64(m.N.Arbiters.GetArbitersCount())*state.MajoritySignRatioNumerator/state.MajoritySignRatioDenominator) + 1
+	code, err := contract.CreateMultiSigRedeemScript(need, pks)
+	if err != nil || code == nil {
+		return nil, fmt.Errorf("multisig script for %d arbiters (m=%d): %v", len(pks), need, err)
+	}
+	m.salt++
+	nonce := make([]byte, 8)
+	binary.BigEndian.PutUint64(nonce, m.salt)
+	attr := ctypes.NewAttribute(ctypes.Nonce, nonce)
+	param := make([]byte, 0, need*65)
+	for i := 0; i < need; i++ {
+		param = append(param, 64)
+		param = append(param, make([]byte, 64)...)
+	}
+	return functions.CreateTransaction(ctypes.TxVersion09, ctypes.RevertToDPOS, payload.RevertToDPOSVersion,
+		&payload.RevertToDPOS{WorkHeightInterval: payload.WorkHeightInterval, RevertToPOWBlockHeight: m.N.Arbiters.GetRevertToPOWBlockHeight()},
+		[]*ctypes.Attribute{&attr}, []*ctypes.Input{}, []*ctypes.Output{}, 0,
+		[]*program.Program{{Code: code, Parameter: param}}), nil
 }
 
 func isPow(n *node.Node) bool { return n.Arbiters.IsInPOWMode() }
@@ -814,6 +862,58 @@ func (m *Machine) Actions() map[string]func(*rapid.T) {
 		"": func(t *rapid.T) {},
 	}
 	if m.Cfg.Reverts {
+		// leave POW mode again (takes effect WorkHeightInterval blocks later)
+		acts["to-dpos"] = func(t *rapid.T) {
+			if m.Tip == nil || !m.Tip.ChainOK || !isPow(m.N) {
+				t.Skip("not in POW mode")
+			}
+			if m.N.Arbiters.DPOSWorkHeight > m.Tip.Height+1 {
+				t.Skip("RevertToDPOS already received")
+			}
+			b := m.Build(t, BuildSpec{Parent: m.Tip, Kind: KindOK, ToDPOS: true})
+			m.Deliver(b, "deliver")
+		}
+		// a branch forking around the last irreversible height, long enough to overtake
+		acts["deep-fork"] = func(t *rapid.T) {
+			lih := m.N.Arbiters.GetLastIrreversibleHeight()
+			if m.Tip == nil || lih == 0 || lih > m.Tip.Height {
+				t.Skip("no irreversible height below the tip")
+			}
+			at := int(lih) + rapid.IntRange(-2, 2).Draw(t, "around")
+			if at < 0 {
+				at = 0
+			}
+			if at > int(m.Tip.Height) {
+				at = int(m.Tip.Height)
+			}
+			base := m.Tip
+			for int(base.Height) > at {
+				base = base.Parent
+			}
+			l := int(m.Tip.Height-base.Height) + rapid.IntRange(0, 2).Draw(t, "extra")
+			if l < 1 {
+				l = 1
+			}
+			if l > 4*maxBranch {
+				t.Skip("too long")
+			}
+			var built []*Blk
+			cur := base
+			for i := 0; i < l; i++ {
+				cur = m.Build(t, BuildSpec{Parent: cur, Kind: KindOK, TimeDelta: m.drawTD(t)})
+				built = append(built, cur)
+			}
+			if rapid.IntRange(0, 3).Draw(t, "tailFirst") == 0 {
+				for _, b := range built[1:] {
+					m.Deliver(b, "deliver")
+				}
+				m.Deliver(built[0], "deliver")
+			} else {
+				for _, b := range built {
+					m.Deliver(b, "deliver")
+				}
+			}
+		}
 		acts["revert"] = func(t *rapid.T) {
 			if m.Tip == nil || !m.Tip.ChainOK {
 				t.Skip("dead")
